@@ -11,6 +11,7 @@ use std::collections::HashSet;
 use std::panic::{catch_unwind, AssertUnwindSafe};
 
 type Ex<'a> = extra::Err<Rich<'a, char>>;
+type ExC<'a> = extra::Full<Rich<'a, char>, (), char>;
 type BP<'a, O> = chumsky::Boxed<'a, 'a, &'a str, O, Ex<'a>>;
 
 pub fn strings(alpha: &[char], l: usize) -> Vec<String> {
@@ -107,6 +108,49 @@ pub fn leftrec_variants<'a>() -> Vec<(&'static str, BP<'a, String>)> {
             recursive(|expr| {
                 let sum = expr.then_ignore(just('+')).then(atom()).map(|(a, b): (String, String)| format!("({a}+{b})")).boxed();
                 custom(move |inp| inp.parse(&sum)).or(atom()).memoized()
+            })
+            .boxed(),
+        ),
+        // the recursion passes through a context boundary on its way back to the same position: the
+        // in-progress marker of the memoized step must still be visible below with_ctx / map_ctx /
+        // ignore_with_ctx / then_with_ctx
+        (
+            "expr = (expr.with_ctx(()) '+' atom).with_ctx('q').memoized() | atom",
+            recursive(|expr| {
+                let inner = expr.with_ctx(()).then_ignore(just::<_, &str, ExC>('+')).then(just::<_, &str, ExC>('x').to("x".to_string())).map(|(a, b): (String, String)| format!("({a}+{b})"));
+                Parser::<&str, String, Ex>::memoized(inner.with_ctx('q')).or(atom())
+            })
+            .boxed(),
+        ),
+        (
+            "expr = (expr.with_ctx(()) '+' atom).memoized().with_ctx('q') | atom   (memoized below the context boundary)",
+            recursive(|expr| {
+                let inner = expr.with_ctx(()).then_ignore(just::<_, &str, ExC>('+')).then(just::<_, &str, ExC>('x').to("x".to_string())).map(|(a, b): (String, String)| format!("({a}+{b})")).memoized();
+                Parser::<&str, String, Ex>::or(inner.with_ctx('q'), atom())
+            })
+            .boxed(),
+        ),
+        (
+            "expr = map_ctx(|()| 'q', expr.with_ctx(()) '+' atom).memoized() | atom",
+            recursive(|expr| {
+                let inner = expr.with_ctx(()).then_ignore(just::<_, &str, ExC>('+')).then(just::<_, &str, ExC>('x').to("x".to_string())).map(|(a, b): (String, String)| format!("({a}+{b})"));
+                map_ctx::<_, _, _, Ex, _, _>(|_: &()| 'q', inner).memoized().or(atom())
+            })
+            .boxed(),
+        ),
+        (
+            "expr = (empty.to('q').ignore_with_ctx(expr.with_ctx(()) '+' atom)).memoized() | atom",
+            recursive(|expr| {
+                let inner = expr.with_ctx(()).then_ignore(just::<_, &str, ExC>('+')).then(just::<_, &str, ExC>('x').to("x".to_string())).map(|(a, b): (String, String)| format!("({a}+{b})"));
+                empty::<&str, Ex>().to('q').ignore_with_ctx(inner).memoized().or(atom())
+            })
+            .boxed(),
+        ),
+        (
+            "expr = (empty.to('q').then_with_ctx(expr.with_ctx(()) '+' atom)).memoized() | atom",
+            recursive(|expr| {
+                let inner = expr.with_ctx(()).then_ignore(just::<_, &str, ExC>('+')).then(just::<_, &str, ExC>('x').to("x".to_string())).map(|(a, b): (String, String)| format!("({a}+{b})"));
+                empty::<&str, Ex>().to('q').then_with_ctx(inner).map(|(_, v): (char, String)| v).memoized().or(atom())
             })
             .boxed(),
         ),
